@@ -1,5 +1,6 @@
 """registry.py — which streams and oracles decide which property."""
 from props import *
+import urllib.parse
 import oracles as O
 
 
@@ -64,7 +65,7 @@ def gen_C06(ctx):
     out += st_token_sample(ctx, ctx.n(4000, 500000), shapes, TOKENS_T, "c06-tok")
     out += st_builder(ctx, ctx.n(6000, 500000), ["S", "P", "CB", "CO", "M"], "c06-build", maxsteps=8)
     out += st_quals(ctx, ctx.n(4000, 300000), "c06-quals")
-    out += st_cksum(ctx, ctx.n(3000, 300000), "c06-cksum")
+    out += st_cksum(ctx, ctx.n(3000, 300000), "c06-cksum", commas=True)
     out += st_long(ctx, shapes, "c06-long", every=ctx.tier == "thorough") + st_long_api(ctx)
     out += st_huge(ctx)
     out += st_classes(ctx, shapes, "c06-cls") + st_classes_build(ctx, ["S", "P", "CB", "CO", "M"], "c06-clsb")
@@ -127,7 +128,9 @@ def gen_C08(ctx):
     base = st_conformance(["P"]) + st_spellings(ctx, ctx.n(5000, 400000), ["P"], "c08-spell", typed_known=True, group=1) \
         + st_malformed(ctx, ctx.n(2000, 100000), ["P"], "c08-mal") + st_classes(ctx, ["P"], "c08-cls") \
         + [case("parse P " + hx(s_), "spec-types", s=s_, shape="P") for t_ in SPEC_TYPES + ["rubygem", "gems", "crate", "mvn", "go-lang", "py.pi"]
-           for s_ in ("pkg:%s/ns/name@1.0" % t_, "pkg:%s/name" % t_.upper())]
+           for s_ in ("pkg:%s/ns/name@1.0" % t_, "pkg:%s/name" % t_.upper())] \
+        + [case("parse P " + hx(s_), "eco-names", s=s_, shape="P") for t_ in KNOWN_TYPES for nm in ECO_NAMES
+           for s_ in ("pkg:%s/g/%s@1.0" % (t_, urllib.parse.quote(nm, safe="")), "pkg:%s/g/%s" % (t_.upper(), urllib.parse.quote(nm, safe="[]!$*(),;=~^{}|`<>\"' ")))]
     for c in base:
         g = dict(c)
         g["req"] = c["req"].replace("parse P ", "parse S ", 1)
@@ -150,6 +153,12 @@ def gen_C08(ctx):
         script = ";".join(steps) or "-"
         out.append(case("build S %s %s %s" % (hx(KNOWN_TYPES[i]), name, script), "builder-generic", shape="S"))
         out.append(case("build P %s %s %s" % (IDENTS[i], name, script), "builder-typed", shape="P", generic=len(out) - 1))
+    # names written in other tools' syntaxes (extras, version specifiers, file names …): typed = rule(generic)
+    for i in range(7):
+        for nm in ECO_NAMES:
+            for script in ("ns:" + hx("g"), "ns:" + hx("g") + ";ver:" + hx("1.0")):
+                out.append(case("build S %s %s %s" % (hx(KNOWN_TYPES[i]), hx(nm), script), "builder-generic", shape="S"))
+                out.append(case("build P %s %s %s" % (IDENTS[i], hx(nm), script), "builder-typed", shape="P", generic=len(out) - 1))
     # names over the alphabet of the quantifier, exhaustively
     alpha = ["a", "A", "1", "-", "_", ".", "À", "ǅ"]
     import itertools
@@ -213,6 +222,7 @@ def gen_C05(ctx):
     out += st_pieces_random(ctx, ctx.n(2000, 100000), shapes, "c05-pieces")
     out += st_long(ctx, shapes, "c05-long", every=ctx.tier == "thorough")
     out += st_cksum_texts(ctx, ("parse",))
+    out += st_scheme_subst(shapes)
     return out
 
 
@@ -286,6 +296,13 @@ def gen_C15(ctx):
     out += st_ptype_near(ctx, ctx.n(4000, 500000), "c15-near")
     out += st_ptype_short(3 if ctx.tier == "quick" else 5)
     out += st_ptype_escaped()
+    # the type string used IN a PURL: every case variant of every name, parsed typed; and the serde form of the type
+    for c in st_ptype_exhaustive():
+        s_ = "pkg:%s/ns/name@1.0" % c["s"]
+        out.append(case("parse P " + hx(s_), "ptype-in-purl", s=s_, expect=c["expect"], shape="P"))
+    for ident in IDENTS:
+        out.append(case("serde P pt %s" % ident, "pt", ident=ident))
+        out.append(case("serde P ser %s" % hx("pkg:%s/ns/name@1.0" % ident.upper()), "ser", s="pkg:%s/ns/name@1.0" % ident.upper(), shape="P", expect=ident.lower()))
     return out
 
 
@@ -427,7 +444,7 @@ def cross_C17(ctx, cases, impl_by_cfg):
 
 
 GENS["C17"] = gen_C17
-CONFIGS = {"C16": ["serde"], "C17": ["default", "package-type", "none", "serde"]}
+CONFIGS = {"C15": ["serde"], "C16": ["serde"], "C17": ["default", "package-type", "none", "serde"]}
 CROSS = {"C17": cross_C17}
 
 
